@@ -348,9 +348,13 @@ def judge(case, root, pre, post, run, res, prop_tag=""):
             elif k == "f" and d.get("sha") != pre[srcof[p_]]["sha"]:
                 bad.append(("bytes", "%s differs from %s" % (p_, srcof[p_])))
         return bad
+    excluded = []
     if v == 6:
-        mapping = [m for m in mapping if not (m["src"].endswith(".o") or m["src"] == "src/build" or m["src"].startswith("src/build/"))]
+        excluded = [m for m in mapping if (m["src"].endswith(".o") or m["src"] == "src/build" or m["src"].startswith("src/build/"))]
+        mapping = [m for m in mapping if m not in excluded]
     bad = model.check_mirror(pre, post, mapping)
+    # a correct destination also lacks what the ignore file excludes (a filter that silently switched itself off is a failed step)
+    bad += [("excluded-entry-copied", "%s is excluded by src/.gitignore but exists in the destination" % m["dst"]) for m in excluded if m["dst"] in post]
     bad += model.check_meta(pre, post, mapping)
     bad += [f for f in model.check_nodes(pre, post, mapping) if f[0] == "rdev" and False]
     # numbered / auto backups: the old content must still exist
